@@ -937,6 +937,13 @@ impl Circuit {
             let mut neg_out = false;
             let mut mapped = BumpVec::with_capacity_in(inputs.len(), bump);
             let known_inputs = input_set.len() / 2 - gates.len();
+            // Report unknown inputs even if the gate is going to be replaced by a
+            // constant because of a dominating input
+            for &l in inputs {
+                if l.is_input() && l.get_input().unwrap() >= known_inputs {
+                    return Err(l);
+                }
+            }
             match kind {
                 GateKind::And | GateKind::Or => {
                     let (identity, dominator) = match kind {
